@@ -69,6 +69,18 @@ def jobs(tier, seed):
             out.append({"kind": "bounds", "c": c, "var": rng.choice(vs)})
         else:
             out.append({"kind": "optimize", "c": c, "obj": oc, "text": obj_string(rng, oc), "maximize": rng.random() < 0.5})
+    # a guarantee that differs from an assumption only in an earlier coefficient (same variables, same last coefficient,
+    # constants free to coincide): optimisation runs over assumptions | guarantees and must keep both
+    for i in range(12 if tier == "quick" else 150):
+        ins, outs = (["x", "u"], ["y"])
+        k1, k2 = rng.choice([(1, 3), (1, -2), (2, 1), (-1, 2)])
+        last = rng.choice([1, -1, 2])
+        c = {"in": ins, "out": outs, "a": [{"x": k1, "u": last}, {"u": -1}, {"x": -1}], "g": [{"x": k2, "u": last}, {"y": 1, "x": -1}, {"y": -1}]}
+        oc = {rng.choice(["x", "u", "y"]): rng.choice([-1, 1, 2])}
+        if i % 3 == 0:
+            out.append({"kind": "bounds", "c": c, "var": rng.choice(["x", "u"])})
+        else:
+            out.append({"kind": "optimize", "c": c, "obj": oc, "text": obj_string(rng, oc), "maximize": rng.random() < 0.5})
     for pin in PINNED:
         out.append(dict(pin, kind="optimize"))
     out.extend(_presolve_jobs())
